@@ -248,6 +248,12 @@ def drain(it):
 def run_strategy(case, st, mods=None):
   from harness.core import err_kind
   mods = mods or _imports()
+  if case.get('fam') == 'sizes':          # round 7 families: harness/lib_c03x.py
+    from harness import lib_c03x
+    return lib_c03x.run_sizes(case, st, mods)
+  if case.get('fam') == 'sliced':
+    from harness import lib_c03x
+    return lib_c03x.run_sliced(case, st, mods)
   np, transform, io, orchestrate, rolling_stats, base = mods
   cuts, s = st['cuts'], st['s']
   try:
